@@ -385,18 +385,8 @@ fn expr_atom(input: &[u8], root_predicate: bool) -> IResult<&[u8], Expr<'_>> {
                 })
             },
         ),
-        map(
-            tuple((
-                unary_arith_op,
-                delimited(multispace0, |i| inner_expr(i, root_predicate), multispace0),
-            )),
-            |(op, operand)| {
-                Expr::ArithmeticFunc(ArithmeticFunc::Unary {
-                    op,
-                    operand: Box::new(operand),
-                })
-            },
-        ),
+        // a comparison is tried before a unary arithmetic expression,
+        // otherwise the sign of a negative literal on the left side is taken as an operator.
         map(
             tuple((
                 delimited(multispace0, |i| inner_expr(i, root_predicate), multispace0),
@@ -407,6 +397,18 @@ fn expr_atom(input: &[u8], root_predicate: bool) -> IResult<&[u8], Expr<'_>> {
                 op,
                 left: Box::new(left),
                 right: Box::new(right),
+            },
+        ),
+        map(
+            tuple((
+                unary_arith_op,
+                delimited(multispace0, |i| inner_expr(i, root_predicate), multispace0),
+            )),
+            |(op, operand)| {
+                Expr::ArithmeticFunc(ArithmeticFunc::Unary {
+                    op,
+                    operand: Box::new(operand),
+                })
             },
         ),
         map(
